@@ -104,12 +104,20 @@ type job struct {
 	noFwd bool
 	// extra random perturbations (deletes / re-adds) appended from this PRNG
 	perturb bool
+	// via: 0 = package rib, 1 = Modify RPC (see mon.NewRIBMonVia)
+	via int
 }
 
 func runJob(run *ev.Run, j job) {
 	r := run.Rand(j.id)
 	g := gen.New(r)
-	x := mon.NewRIBMon(g.S, j.noFwd)
+	x, err := mon.NewRIBMonVia(g.S, j.noFwd, j.via)
+	if err != nil {
+		run.Fatal(err.Error())
+		return
+	}
+	defer x.Close()
+	run.Seen("programmed_via", mon.ViaName(j.via))
 	var probs []string
 	namedFlush := false
 	step := func(s gen.OpSpec) bool {
@@ -230,6 +238,12 @@ func TestCheck(t *testing.T) {
 	}
 	ev.Parallel(len(jobs), ev.Workers(), func(i int) {
 		if run.Want(jobs[i].id) {
+			if i%3 == 2 {
+				jobs[i].via = 1
+				if i%90 == 2 {
+					jobs[i].via = 2
+				}
+			}
 			runJob(run, jobs[i])
 		}
 	})
